@@ -856,11 +856,13 @@ func init() {
 		}
 		pks, values, bases = c18Win(r, pks), c18Win(r, values), c18Win(r, bases)
 		coeff := rfr(r)
+		// a key over OTHER bases with the lengths of key 0 (what a key file written elsewhere decodes to)
+		other := pedersen.ProvingKey{Basis: rG1(r, len(bases[0])), BasisExpSigma: rG1(r, len(bases[0]))}
 		vks := make([]pedersen.VerifyingKey, nb)
 		for i := range vks {
 			vks[i] = vk
 		}
-		s := &c18Sess{args: []c18Arg{{"pk", &pks}, {"vk", &vk}, {"vks", &vks}, {"values", &values}, {"combinationCoeff", &coeff}, {"bases", &bases}}}
+		s := &c18Sess{args: []c18Arg{{"pk", &pks}, {"vk", &vk}, {"vks", &vks}, {"values", &values}, {"combinationCoeff", &coeff}, {"bases", &bases}, {"other", &other}}}
 		s.call = func() string {
 			out := ""
 			coms := make([]curve.G1Affine, nb)
@@ -886,6 +888,14 @@ func init() {
 			if ok {
 				c, e1 := spk[0].Commit(values[0])
 				ok = e1 == nil && c == coms[0]
+			}
+			// ARGUMENTS OF AN EARLIER CALL: the key returned by Setup is now the documented DESTINATION of ReadFrom (it
+			// decodes another key of the same shape); `bases`, the argument of the earlier Setup call, is not
+			if err3 == nil && len(spk) == nb {
+				var buf bytes.Buffer
+				_, e2 := other.WriteTo(&buf)
+				_, e3 := spk[0].ReadFrom(&buf)
+				out += c18Err(e2) + c18Err(e3) + s.out(&spk[0])
 			}
 			return out + boolStr(ok)
 		}
